@@ -72,35 +72,34 @@ fn c01_calldata_roundtrip() {
 }
 
 // ---- simple stack arms ----
-vm_harness! {
-    #[kani::unwind(9)]
-    fn c01_push_arms() {
-        let c: [i64; 2] = kani::any();
-        let fb: u64 = kani::any();
-        let mut t = mk_thread(
-            vec![norm(Instr::PushInt(1)), norm(Instr::PushFloat(0)), norm(Instr::PushBool(true)), norm(Instr::PushNil(2)),
-                 norm(Instr::PushAddr(ProgramCounter(77))), Instr::Stop],
-            vec![c[0], c[1]],
-            vec![f64::from_bits(fb)],
-        );
-        t.value_stack = Vec::with_capacity(16);
-        push_frame(&mut t, ValueTag::Int);
-        let mut model = t.value_stack.clone();
-        t.pc.0 = 0; assert!(t.step()); model.push(Value::from(c[1]));
-        assert!(same_stack(&t.value_stack, &model) && t.pc.0 == 1, "PushInt pushes the indexed constant");
-        t.pc.0 = 1; assert!(t.step()); model.push(Value(fb, ValueTag::Float));
-        assert!(same_stack(&t.value_stack, &model), "PushFloat");
-        t.pc.0 = 2; assert!(t.step()); model.push(Value::from(true));
-        assert!(same_stack(&t.value_stack, &model), "PushBool");
-        t.pc.0 = 3; assert!(t.step()); model.push(Value::from(0i64)); model.push(Value::from(0i64));
-        assert!(same_stack(&t.value_stack, &model), "PushNil(n) pushes n zero slots");
-        t.pc.0 = 4; assert!(t.step()); model.push(Value(77, ValueTag::Addr));
-        assert!(same_stack(&t.value_stack, &model), "PushAddr");
-        assert!(t.error.is_none() && !t.done && t.pending_host_func.is_none());
-        kani::cover!(true, "req: reachable");
-        std::mem::forget(t);
-    }
+// one real step per harness (five steps of the big match in one harness do not finish: measured, solver gave up)
+macro_rules! push_arm {
+    ($name:ident, $instr:expr, |$c:ident, $fb:ident| [$($v:expr),*], $msg:expr) => {
+        vm_harness! {
+            #[kani::unwind(9)]
+            fn $name() {
+                let $c: [i64; 2] = kani::any();
+                let $fb: u64 = kani::any();
+                let mut t = mk_thread(vec![norm($instr), Instr::Stop], vec![$c[0], $c[1]], vec![f64::from_bits($fb)]);
+                t.value_stack = Vec::with_capacity(16);
+                push_frame(&mut t, ValueTag::Int);
+                let mut model = t.value_stack.clone();
+                t.pc.0 = 0;
+                assert!(t.step());
+                $( model.push($v); )*
+                assert!(same_stack(&t.value_stack, &model) && t.pc.0 == 1, $msg);
+                assert!(t.error.is_none() && !t.done && t.pending_host_func.is_none());
+                kani::cover!(true, "req: reachable");
+                std::mem::forget(t);
+            }
+        }
+    };
 }
+push_arm!(c01_push_int, Instr::PushInt(1), |c, fb| [Value::from(c[1])], "PushInt pushes the indexed constant");
+push_arm!(c01_push_float, Instr::PushFloat(0), |c, fb| [Value(fb, ValueTag::Float)], "PushFloat pushes the indexed constant");
+push_arm!(c01_push_bool, Instr::PushBool(true), |c, fb| [Value::from(true)], "PushBool");
+push_arm!(c01_push_nil, Instr::PushNil(2), |c, fb| [Value::from(0i64), Value::from(0i64)], "PushNil(n) pushes n zero slots");
+push_arm!(c01_push_addr, Instr::PushAddr(ProgramCounter(77)), |c, fb| [Value(77, ValueTag::Addr)], "PushAddr");
 vm_harness! {
     #[kani::unwind(9)]
     fn c01_stack_arms() {
@@ -224,13 +223,9 @@ vm_harness! {
         assert!(t.value_stack[FRAME].0 == arg.0, "argument stays below the frame base");
         assert!(t.value_stack[FRAME + 1].0 == caps[0] && t.value_stack[FRAME + 1].1 == ValueTag::Int
             && t.value_stack[FRAME + 2].0 == caps[1] && t.value_stack[FRAME + 2].1 == ValueTag::Float, "captures in order as first locals");
-        let result = sym_val(ValueTag::Int);
-        t.value_stack.push(result);
-        t.pc.0 = 2;
-        assert!(t.step());
-        let mut model = caller.clone();
-        model.push(result);
-        assert!(t.pc.0 == 1 && t.stack_base == SB && same_stack(&t.value_stack, &model), "return discards argument and captures");
+        // the matching Return(1) from this frame shape is the subject of c01_call_return_*
+        assert!(t.call_stack.len() == 1 && t.call_stack[0].pc.0 == 1 && t.call_stack[0].stack_base == SB, "return address and caller frame saved");
+        let _ = &caller;
         kani::cover!(true, "req: reachable");
         std::mem::forget(t);
     }
